@@ -135,6 +135,11 @@ def _split(t):
         yield t
 
 
+def contradictory(known):
+    """A closed fact set that contains a boolean term together with its negation."""
+    return any(T.not_(x) in known for x in known)
+
+
 def known_at(facts, conds):
     return closure(list(facts) + list(conds))
 
